@@ -216,33 +216,32 @@ func checkC11(tier string) int {
 		},
 		tune: func(cfg *drive.Cfg, i int) {
 			if i%8 == 6 {
-				// every validator unstakes to just below the minimum in the same block: from the next block on nobody
-				// is elected (the last active set stays), and the unstaked amounts mature during that stretch
+				// a quiet chain of four validators (transfers only): every validator unstakes to just below the minimum
+				// in block 10, so from the next block on nobody is elected (the last active set stays); the unstaked
+				// amounts, and a second small unstake of block 12, mature during that stretch; in block 22 they all
+				// stake in again
 				w1, _ := world.New(cfg.Params)
+				cfg.Scripts = []string{"transfers"}
 				cfg.ExtraPlan = func(c *gen.Ctx) []hist.TxSpec {
 					var out []hist.TxSpec
-					if c.H == 30 {
-						min := mon.StakingOptions(c.S).Min()
-						for _, v := range w1.Vals {
-							if cur := gen.StakeOf(c.S, v.ValAddr).Int64(); cur >= min && min > 1 {
-								out = append(out, gen.Build(c, "UNSTAKE", &staking.Unstake{ValidatorAddress: v.ValAddr, StakeAddress: v.Stake.Addr, Stake: txb.Amt("OLT", fmt.Sprint(cur-min+1))}, "every validator unstakes to just below the minimum in the same block", &v.Stake, gen.ConsAccount(v)))
-							}
+					min := mon.StakingOptions(c.S).Min()
+					for k, v := range w1.Vals {
+						if !v.InGenesis {
+							continue
+						}
+						cur := gen.StakeOf(c.S, v.ValAddr).Int64()
+						switch {
+						case c.H == 10 && cur >= min && min > 1:
+							out = append(out, gen.Build(c, "UNSTAKE", &staking.Unstake{ValidatorAddress: v.ValAddr, StakeAddress: v.Stake.Addr, Stake: txb.Amt("OLT", fmt.Sprint(cur-min+1))}, "every validator unstakes to just below the minimum in the same block", &v.Stake, gen.ConsAccount(v)))
+						case c.H == 13 && k == 0 && cur > 20:
+							out = append(out, gen.Build(c, "UNSTAKE", &staking.Unstake{ValidatorAddress: v.ValAddr, StakeAddress: v.Stake.Addr, Stake: txb.Amt("OLT", "10")}, "a second, small unstake while nobody is elected", &v.Stake, gen.ConsAccount(v)))
+						case c.H == 22 && cur < min:
+							out = append(out, gen.Build(c, "STAKE", gen.StakeMsg(v, fmt.Sprint(min-cur+100+int64(k))), "the validators stake in again", &v.Stake, gen.ConsAccount(v)))
+						case (c.H == 19 || c.H == 30) && k < 2:
+							out = append(out, gen.Build(c, "WITHDRAW", &staking.Withdraw{ValidatorAddress: v.ValAddr, StakeAddress: v.Stake.Addr, Stake: txb.Amt("OLT", "5")}, "withdraw a little of what has matured", &v.Stake, gen.ConsAccount(v)))
 						}
 					}
 					return out
-				}
-				// (nobody stakes in again before the amounts have matured)
-				cfg.FilterPlan = func(c *gen.Ctx, specs []hist.TxSpec) []hist.TxSpec {
-					if c.H < 30 || c.H > 38 {
-						return specs
-					}
-					var keep []hist.TxSpec
-					for _, sp := range specs {
-						if sp.Kind != "STAKE" {
-							keep = append(keep, sp)
-						}
-					}
-					return keep
 				}
 			}
 		},
